@@ -74,20 +74,32 @@ type gmsg struct {
 }
 
 type txSpec struct {
-	Family   string
-	Msgs     []*gmsg
-	Ext      []string // "eth" | "dyn"
-	NonCrit  []string
-	NSigs    int
-	NInfos   int
-	Payer    bool
-	Granter  bool
-	Memo     int      // 0 none, 1 short, 2 long
-	Timeout  int      // 0 none, 1 future, 2 past
-	Fee      [][2]string // (denom id, amount)
-	Gas      uint64
-	SdkFault string // "" | badseq | lowfee   (Cosmos lane)
-	Canonical bool  // Cosmos-lane envelope signed by the sender in the canonical way
+	Family  string
+	Msgs    []*gmsg
+	Ext     []string // "eth" | "dyn" | "unk" (an Any with a type URL nobody registered: outside the model, see emit)
+	NonCrit []string
+	// what the generator chose: KINDS of values, resolved to the field's VALUE by build (values.go)
+	SigK     string
+	InfoK    string
+	PayerK   string
+	GranterK string
+	MemoK    string
+	TimeoutK string
+	TipK     string
+	// the model's inputs: DERIVED from the values that were put on the wire (derive), never from the kinds above
+	NSigs     int
+	NInfos    int
+	Payer     bool
+	Granter   bool
+	Memo      int         // 0 "" | 1 at most MaxMemoCharacters bytes | 2 longer
+	Timeout   int         // 0 zero | 1 not reached in any mode | 2 passed in every mode
+	Fee       [][2]string // (denom id, amount)
+	Gas       uint64
+	SdkFault  string // "" | badseq | lowfee   (Cosmos lane)
+	Canonical bool   // Cosmos-lane envelope signed by the sender in the canonical way
+	// environment facts of the fee source (matter on re-check only, where decorator 03 is skipped)
+	PayerCanPay   bool
+	GranterAllows bool
 }
 
 var vestingNames = []string{"VCreate", "VPeriodic", "VPermanent"}
@@ -188,8 +200,12 @@ func (s *txSpec) canon() string {
 	for i, m := range s.Msgs {
 		ms[i] = m.canon()
 	}
-	return fmt.Sprintf("%s|%v|%v|%d|%d|%v|%v|%d|%d|%v|%d|%s", strings.Join(ms, ";"), s.Ext, s.NonCrit, s.NSigs, s.NInfos, s.Payer, s.Granter,
-		s.Memo, s.Timeout, feeClass(s), gasClass(s), s.SdkFault)
+	return fmt.Sprintf("%s|%v|%v|%d|%d|%v|%v|%d|%d|%v|%d|%s|%s", strings.Join(ms, ";"), s.Ext, s.NonCrit, s.NSigs, s.NInfos, s.Payer, s.Granter,
+		s.Memo, s.Timeout, feeClass(s), gasClass(s), s.SdkFault, s.kinds())
+}
+
+func (s *txSpec) kinds() string {
+	return strings.Join([]string{s.SigK, s.InfoK, s.PayerK, s.GranterK, s.MemoK, s.TimeoutK, s.TipK}, ",")
 }
 
 func feeClass(s *txSpec) string {
@@ -247,6 +263,7 @@ type caseRun struct {
 	decObs  map[string][]string        // per mode: Coq option (Z*Z) per decorator
 	exec    string                     // Coq option
 	notes   map[string]interface{}
+	decodeError bool // the tx decoder refused the bytes (expected exactly for an extension option with an unregistered type URL)
 }
 
 type obsT struct {
@@ -340,6 +357,7 @@ func (w *world) setup() {
 	w.extDyn, err = codectypes.NewAnyWithValue(&evertypes.ExtensionOptionDynamicFeeTx{MaxPriorityPrice: sdkmath.ZeroInt()})
 	require.NoError(w.t, err)
 	w.otherDen = "uverif"
+	require.Equal(w.t, uint64(maxMemoCharacters), c.App.AccountKeeper.GetParams(c.QueryCtx()).MaxMemoCharacters)
 	// the lane-specific decorators, constructed as app/antedl/ante.go does with the options of app/app.go
 	w.decs = []sdk.AnteDecorator{
 		duallane.NewDualLaneExtensionOptionsDecorator(sdkauthante.NewExtensionOptionsDecorator(evertypes.HasDynamicFeeExtensionOption)),
@@ -444,7 +462,7 @@ func (w *world) genEthLane(r *Rng, cr *caseRun, s *txSpec) {
 	s.Msgs = []*gmsg{{Kind: kEth, Eth: &ethSpec{Variant: v}}}
 	s.Ext = []string{"eth"}
 	// deviations: either a few, or a uniformly random combination of all flags
-	nd := []int{0, 0, 0, 0, 1, 1, 2, 3}[r.Intn(8)]
+	nd := []int{0, 0, 1, 1, 1, 1, 2, 3}[r.Intn(8)]
 	uniform := r.Chance(15)
 	flag := func(i int) bool {
 		if uniform {
@@ -462,36 +480,41 @@ func (w *world) genEthLane(r *Rng, cr *caseRun, s *txSpec) {
 		}
 	}
 	if dev[0] {
-		s.Ext = [][]string{{}, {"dyn"}, {"eth", "eth"}, {"eth", "dyn"}, {"dyn", "eth"}}[r.Intn(5)]
+		s.Ext = [][]string{{}, {"dyn"}, {"eth", "eth"}, {"eth", "dyn"}, {"dyn", "eth"}, {"eth", "eth", "eth"}, {"unk"}, {"eth", "unk"}}[r.Intn(8)]
 	}
 	if dev[1] {
-		s.NonCrit = [][]string{{"eth"}, {"dyn"}}[r.Intn(2)]
+		s.NonCrit = [][]string{{"eth"}, {"dyn"}, {"unk"}, {"eth", "dyn"}}[r.Intn(4)]
 	}
 	if dev[2] {
-		s.NSigs = 1 + r.Intn(2)
+		s.SigK = pick(r, sigKinds)
 	}
 	if dev[3] {
-		s.NInfos = 1 + r.Intn(2)
+		s.InfoK = pick(r, infoKinds)
 	}
-	s.Payer = dev[4]
-	s.Granter = dev[5]
+	if dev[4] {
+		s.PayerK = pick(r, payerKinds)
+	}
+	if dev[5] {
+		s.GranterK = pick(r, granterKinds)
+	}
 	if dev[6] {
-		s.Memo = 1 + r.Intn(2)
+		s.MemoK = pick(r, memoKinds)
 	}
 	if dev[7] {
-		s.Timeout = 1 + r.Intn(2)
+		s.TimeoutK = pick(r, timeoutKindsAll)
 	}
-	// fee / gas deviations are filled in by build (they depend on the embedded tx); remember the choice
-	cr.notes["feeDev"] = 0
-	cr.notes["gasDev"] = 0
+	// fee / gas deviations are relative to the embedded tx: resolved by build
+	cr.notes["feeK"] = ""
+	cr.notes["gasK"] = ""
 	if dev[8] {
-		cr.notes["feeDev"] = 1 + r.Intn(6)
+		cr.notes["feeK"] = pick(r, feeKinds)
 	}
 	if dev[9] {
-		cr.notes["gasDev"] = 1 + r.Intn(3)
-		if r.Chance(8) {
-			cr.notes["gasDev"] = 4
-		}
+		cr.notes["gasK"] = pick(r, gasKinds)
+	}
+	// a tip is not mentioned by the property and not looked at by the code: it must not matter
+	if r.Chance(5) {
+		s.TipK = []string{"evm-denom", "other-denom"}[r.Intn(2)]
 	}
 }
 
@@ -519,14 +542,36 @@ func (w *world) genMixed(r *Rng, cr *caseRun, s *txSpec) {
 	if r.Chance(20) {
 		s.NonCrit = []string{"eth"}
 	}
-	s.NSigs = r.Intn(3)
-	s.NInfos = r.Intn(3)
-	s.Payer = r.Chance(20)
-	s.Granter = r.Chance(20)
-	s.Memo = r.Intn(3)
-	s.Timeout = r.Intn(3)
-	cr.notes["feeDev"] = r.Intn(3)
-	cr.notes["gasDev"] = r.Intn(2)
+	if r.Chance(50) {
+		s.SigK = pick(r, sigKinds)
+	}
+	if r.Chance(40) {
+		s.InfoK = pick(r, infoKinds)
+	}
+	if r.Chance(20) {
+		s.PayerK = pick(r, payerKinds)
+	}
+	if r.Chance(20) {
+		s.GranterK = pick(r, granterKinds)
+	}
+	if r.Chance(50) {
+		s.MemoK = pick(r, memoKinds)
+	}
+	if r.Chance(50) {
+		s.TimeoutK = pick(r, timeoutKindsSafe) // several messages: the decorators take their Cosmos branch
+	}
+	cr.notes["feeK"] = ""
+	cr.notes["gasK"] = ""
+	if r.Chance(50) {
+		cr.notes["feeK"] = pick(r, feeKinds)
+	}
+	if r.Chance(35) {
+		// the SDK's set-up decorator compares the gas limit with the block's: only near values here
+		cr.notes["gasK"] = []string{"+1", "-1"}[r.Intn(2)]
+	}
+	if r.Chance(5) {
+		s.TipK = "evm-denom"
+	}
 }
 
 func (w *world) genCosmos(r *Rng, cr *caseRun, s *txSpec) {
@@ -550,7 +595,6 @@ func (w *world) genCosmos(r *Rng, cr *caseRun, s *txSpec) {
 }
 
 func (w *world) cosmosEnvelope(r *Rng, s *txSpec) {
-	s.NSigs, s.NInfos = 1, 1
 	s.Gas = 3_000_000
 	if r.Chance(18) {
 		s.Ext = [][]string{{"dyn"}, {"eth"}, {"dyn", "eth"}, {"dyn", "dyn"}}[r.Intn(4)]
@@ -559,16 +603,10 @@ func (w *world) cosmosEnvelope(r *Rng, s *txSpec) {
 		s.NonCrit = [][]string{{"eth"}, {"dyn"}}[r.Intn(2)]
 	}
 	if r.Chance(30) {
-		s.Memo = 1 + r.Intn(2)
-		if r.Chance(60) {
-			s.Memo = 1
-		}
+		s.MemoK = pick(r, memoKinds)
 	}
 	if r.Chance(25) {
-		s.Timeout = 1 + r.Intn(2)
-		if r.Chance(60) {
-			s.Timeout = 1
-		}
+		s.TimeoutK = pick(r, timeoutKindsSafe)
 	}
 	if r.Chance(6) {
 		s.SdkFault = []string{"badseq", "lowfee"}[r.Intn(2)]
@@ -679,47 +717,80 @@ func (w *world) buildMsg(m *gmsg, cr *caseRun, nonce uint64) sdk.Msg {
 	}
 }
 
+func (w *world) extAny(x string) *codectypes.Any {
+	switch x {
+	case "eth":
+		return w.extEth
+	case "dyn":
+		return w.extDyn
+	default:
+		// a well-formed Any whose type URL no module registered
+		return &codectypes.Any{TypeUrl: "/verif.lane.v1.ExtensionOptionNobodyKnows", Value: []byte{0x08, 0x01}}
+	}
+}
+
 func (w *world) build(cr *caseRun) {
 	c := w.c
 	s := cr.spec
 	accNum, seq := c.AccNumSeq(cr.sender.GetCosmosAddress())
+	cur := uint64(c.Height - 1) // last committed height
 	raw := &RawTx{}
 	for _, m := range s.Msgs {
 		raw.Msgs = append(raw.Msgs, w.buildMsg(m, cr, seq))
 	}
 	for _, x := range s.Ext {
-		if x == "eth" {
-			raw.ExtOpts = append(raw.ExtOpts, w.extEth)
-		} else {
-			raw.ExtOpts = append(raw.ExtOpts, w.extDyn)
-		}
+		raw.ExtOpts = append(raw.ExtOpts, w.extAny(x))
 	}
 	for _, x := range s.NonCrit {
-		if x == "eth" {
-			raw.NonCritical = append(raw.NonCritical, w.extEth)
-		} else {
-			raw.NonCritical = append(raw.NonCritical, w.extDyn)
+		raw.NonCritical = append(raw.NonCritical, w.extAny(x))
+	}
+	raw.Memo = memoValue(s.MemoK)
+	raw.Timeout = timeoutValue(s.TimeoutK, cur)
+	// the (first) Ethereum message, if any: the envelope's fee source when neither payer nor granter is declared
+	var e *ethSpec
+	for _, m := range s.Msgs {
+		if m.Kind == kEth {
+			e = m.Eth
+			break
 		}
 	}
-	raw.Memo = []string{"", "verif", strings.Repeat("m", 300)}[s.Memo]
-	raw.Timeout = []uint64{0, 1 << 40, 1}[s.Timeout]
-	if s.Payer {
+	addrOf := func(k string) string {
+		switch k {
+		case "funded":
+			return ""
+		case "unknown":
+			return DetAccount(w.seed, "nobody", cr.idx).GetCosmosAddress().String()
+		case "sender":
+			return cr.sender.GetCosmosAddress().String()
+		}
+		return ""
+	}
+	switch s.PayerK {
+	case "funded":
+		raw.Payer = w.payer.GetCosmosAddress().String()
+	case "present-empty":
+		raw.ExplicitEmptyPayer = true
+	default:
+		raw.Payer = addrOf(s.PayerK)
+	}
+	if s.PayerK == "sender" && s.SigK != "" {
+		// Lane.n_signers counts a declared payer as a second signer, which the SDK does only for a payer that is not
+		// already a signer: with signatures present the payer is somebody else (generator restriction)
 		raw.Payer = w.payer.GetCosmosAddress().String()
 	}
-	if s.Granter {
+	switch s.GranterK {
+	case "funded":
 		raw.Granter = w.granter.GetCosmosAddress().String()
+	case "present-empty":
+		raw.ExplicitEmptyGranter = true
+	default:
+		raw.Granter = addrOf(s.GranterK)
 	}
-	setFee := func(l [][2]string) {
-		s.Fee = l
-		raw.Fee = sdk.Coins{}
-		for _, f := range l {
-			amt, _ := new(big.Int).SetString(f[1], 10)
-			den := c.Denom()
-			if f[0] == "1" {
-				den = w.otherDen
-			}
-			raw.Fee = append(raw.Fee, sdk.Coin{Denom: den, Amount: sdkmath.NewIntFromBigInt(amt)})
-		}
+	switch s.TipK {
+	case "evm-denom":
+		raw.Tip = &sdktx.Tip{Amount: sdk.NewCoins(sdk.NewInt64Coin(c.Denom(), 3)), Tipper: w.other.GetCosmosAddress().String()}
+	case "other-denom":
+		raw.Tip = &sdktx.Tip{Amount: sdk.NewCoins(sdk.NewInt64Coin(w.otherDen, 1)), Tipper: cr.sender.GetCosmosAddress().String()}
 	}
 	if s.Canonical {
 		raw.Gas = s.Gas
@@ -727,7 +798,7 @@ func (w *world) build(cr *caseRun) {
 		if s.SdkFault == "lowfee" {
 			price = new(big.Int).Div(w.baseFee, big.NewInt(2))
 		}
-		setFee([][2]string{{"0", new(big.Int).Mul(price, new(big.Int).SetUint64(s.Gas)).String()}})
+		raw.Fee = c.FeeCoins(new(big.Int).Mul(price, new(big.Int).SetUint64(s.Gas)))
 		sq := seq
 		if s.SdkFault == "badseq" {
 			sq = seq + 7
@@ -735,62 +806,74 @@ func (w *world) build(cr *caseRun) {
 		require.NoError(w.t, raw.SignDirect(c.ChainID(), cr.sender, accNum, sq))
 	} else {
 		// envelope around the (first) Ethereum message
-		var e *ethSpec
-		for _, m := range s.Msgs {
-			if m.Kind == kEth {
-				e = m.Eth
-				break
-			}
-		}
-		fee := e.fee
-		feeDev, _ := cr.notes["feeDev"].(int)
-		gasDev, _ := cr.notes["gasDev"].(int)
-		switch feeDev {
-		case 0:
-			setFee([][2]string{{"0", fee.String()}})
-		case 1:
-			setFee([][2]string{{"0", Badd(fee, 1).String()}})
-		case 2:
-			setFee([][2]string{{"0", Bsub(fee, 1).String()}})
-		case 3:
-			setFee([][2]string{{"1", fee.String()}})
-		case 4:
-			setFee([][2]string{})
-		case 5:
-			// coins are kept sorted by denom as the SDK requires of a valid Coins value
-			l := [][2]string{{"0", fee.String()}, {"1", "7"}}
-			if w.otherDen < c.Denom() {
-				l = [][2]string{{"1", "7"}, {"0", fee.String()}}
-			}
-			setFee(l)
-		default:
-			setFee([][2]string{{"0", new(big.Int).Mul(fee, big.NewInt(2)).String()}})
-		}
-		switch gasDev {
-		case 0:
-			s.Gas = e.gas
-		case 1:
-			s.Gas = e.gas + 1
-		case 2:
-			s.Gas = e.gas - 1
-		case 3:
-			s.Gas = 0
-		default:
-			s.Gas = 1 << 63 // > MaxGasWanted
-		}
-		raw.Gas = s.Gas
-		for i := 0; i < s.NInfos; i++ {
-			si, err := SignerInfoFor(w.payer, uint64(i))
-			require.NoError(w.t, err)
-			raw.SignerInfos = append(raw.SignerInfos, si)
-		}
-		for i := 0; i < s.NSigs; i++ {
-			raw.Signatures = append(raw.Signatures, []byte{byte(i + 1), 2, 3})
-		}
+		feeK, _ := cr.notes["feeK"].(string)
+		gasK, _ := cr.notes["gasK"].(string)
+		raw.Fee = w.feeValue(feeK, e.fee)
+		raw.Gas = gasValue(gasK, e.gas)
+		raw.SignerInfos = w.infoValues(s.InfoK)
+		raw.Signatures = sigValues(s.SigK)
 	}
 	bz, err := raw.Encode()
 	require.NoError(w.t, err)
 	cr.bz = bz
+	w.derive(cr, raw, e, cur)
+}
+
+// derive computes the model's inputs from the VALUES of the envelope that was encoded.
+func (w *world) derive(cr *caseRun, raw *RawTx, e *ethSpec, cur uint64) {
+	c := w.c
+	s := cr.spec
+	s.NSigs = len(raw.Signatures)
+	s.NInfos = len(raw.SignerInfos)
+	s.Payer = raw.Payer != ""
+	s.Granter = raw.Granter != ""
+	s.Memo = memoClass(raw.Memo)
+	s.Timeout = timeoutClass(raw.Timeout, cur)
+	s.Gas = raw.Gas
+	s.Fee = [][2]string{}
+	for _, coin := range raw.Fee {
+		s.Fee = append(s.Fee, [2]string{w.denomID(coin.Denom), coin.Amount.BigInt().String()})
+	}
+	// the fee source of sdk DeductFeeDecorator: granter if declared (needs an allowance unless it IS the fee payer),
+	// else the payer if declared, else the first signer
+	s.PayerCanPay, s.GranterAllows = true, false
+	if e != nil && e.msg != nil {
+		exists := func(a string) bool {
+			addr, err := sdk.AccAddressFromBech32(a)
+			return err == nil && c.App.AccountKeeper.GetAccount(c.QueryCtx(), addr) != nil
+		}
+		feePayer := raw.Payer
+		if feePayer == "" {
+			feePayer = e.msg.From
+		}
+		if raw.Granter != "" {
+			s.GranterAllows = raw.Granter == feePayer
+			s.PayerCanPay = exists(raw.Granter)
+		} else if raw.Payer != "" {
+			s.PayerCanPay = exists(raw.Payer)
+		}
+	}
+	cr.notes["values"] = map[string]interface{}{
+		"timeout_height": fmt.Sprint(raw.Timeout), "memo_len": len(raw.Memo), "memo": fmt.Sprintf("%q", truncate(raw.Memo, 24)),
+		"signatures": sigLens(raw.Signatures), "signer_infos": s.InfoK, "payer": raw.Payer, "granter": raw.Granter,
+		"fee": raw.Fee.String(), "gas_limit": fmt.Sprint(raw.Gas), "tip": s.TipK,
+		"payer_present_empty": raw.ExplicitEmptyPayer, "granter_present_empty": raw.ExplicitEmptyGranter,
+	}
+}
+
+func truncate(s string, n int) string {
+	if len(s) > n {
+		return s[:n]
+	}
+	return s
+}
+
+func sigLens(l [][]byte) []int {
+	out := make([]int, len(l))
+	for i, x := range l {
+		out[i] = len(x)
+	}
+	return out
 }
 
 // ------------------------------------------------------------------ running
@@ -819,6 +902,7 @@ func (w *world) runDecorators(cr *caseRun) {
 	tx, err := w.c.S.EncodingConfig.TxConfig.TxDecoder()(cr.bz)
 	if err != nil {
 		cr.notes["decode_error"] = true
+		cr.decodeError = true
 		return
 	}
 	for _, mode := range cr.modes {
@@ -1032,8 +1116,13 @@ func (w *world) emit(cr *caseRun, cases *CasesFile, side *Sidecar, prop string) 
 		// SDK ValidateBasicDecorator called alone on a tx without messages: one signature, no signer -> ErrUnauthorized
 		sdkVb = optZ(4, true)
 	}
-	cases.Add(fmt.Sprintf("(CTx (Build_txcase %s %s %s %s true false %s %s %s))", s.shapeCoq(), CqList(proven), sdkVb, CqList(rest),
-		CqList(obs), CqList(decs), cr.exec))
+	// outside the Coq model: bytes the tx decoder refuses (expected exactly for an option with an unregistered type URL,
+	// for which Lane.xopt has no constructor); the direct oracle below still applies to them
+	unk := hasUnknownOption(s)
+	if !cr.decodeError && !unk {
+		cases.Add(fmt.Sprintf("(CTx (Build_txcase %s %s %s %s %s %s %s %s %s))", s.shapeCoq(), CqList(proven), sdkVb, CqList(rest),
+			CqBool(s.PayerCanPay), CqBool(s.GranterAllows), CqList(obs), CqList(decs), cr.exec))
+	}
 
 	// histogram
 	side.Count("family:" + s.Family)
@@ -1067,7 +1156,31 @@ func (w *world) emit(cr *caseRun, cases *CasesFile, side *Sidecar, prop string) 
 		side.Count("deliver:ante-passed-exec-failed")
 	}
 	desc := map[string]interface{}{"family": s.Family, "shape": s.canon(), "obs": fmt.Sprint(cr.obs), "notes": cr.notes}
-	plainEth := s.Family == "eth" && s.canon() == "E:ok|[eth]|[]|0|0|false|false|0|0|0|1|"
+	plainEth := s.Family == "eth" && plainEthShape(s) && s.Msgs[0].Eth.Variant == "ok" && len(s.Ext) == 1 && s.kinds() == ",,,,,,"
+	// value kinds reached (per family), and the cases that stay outside the Coq model
+	for _, kv := range [][2]string{{"signatures", s.SigK}, {"signer_infos", s.InfoK}, {"payer", s.PayerK}, {"granter", s.GranterK},
+		{"memo", s.MemoK}, {"timeout_height", s.TimeoutK}, {"tip", s.TipK}} {
+		if kv[1] != "" {
+			side.Count("value:" + s.Family + ":" + kv[0] + ":" + kv[1])
+		}
+	}
+	if !s.Canonical {
+		if k, _ := cr.notes["feeK"].(string); k != "" {
+			side.Count("value:" + s.Family + ":fee:" + k)
+		}
+		if k, _ := cr.notes["gasK"].(string); k != "" {
+			side.Count("value:" + s.Family + ":gas_limit:" + k)
+		}
+	}
+	switch {
+	case unk && cr.decodeError:
+		side.Count("outside-model:unknown-option-type-url:decoder-refused")
+	case unk:
+		side.Count("outside-model:unknown-option-type-url:DECODED")
+	case cr.decodeError:
+		side.Count("outside-model:UNEXPECTED-decode-error:" + s.kinds())
+	}
+
 	plainSend := s.Family == "cosmos" && len(s.Msgs) == 1 && s.Msgs[0].Kind == kOther && s.Memo == 0 && s.Timeout == 0 && len(s.Ext) == 0
 	side.Case(cr.idx, s.canon(), !plainEth && !plainSend, desc)
 
@@ -1167,6 +1280,15 @@ func (w *world) emit(cr *caseRun, cases *CasesFile, side *Sidecar, prop string) 
 			}
 		}
 	}
+}
+
+func hasUnknownOption(s *txSpec) bool {
+	for _, x := range append(append([]string{}, s.Ext...), s.NonCrit...) {
+		if x == "unk" {
+			return true
+		}
+	}
+	return false
 }
 
 func plainEthShape(s *txSpec) bool {
